@@ -21,7 +21,9 @@ RULE = ("well-formed CIF 2.0 documents (<= 3 blocks, one level of save frames, s
         "packets, values incl. nested lists/tables, text fields, triple-quoted strings, comments) rendered with random "
         "layout x every handler program deviating from CONTINUE at <= 1 handler invocation (quick) / <= 2 (thorough) with "
         "responses {-1,-2,-3,7,1}, random programs beyond, each in storing and syntax-only mode; non-trivial = a deviation "
-        "is reached; oracle (implementation only): C15 restated over log + final CIF")
+        "is reached; plus targeted programs bypassing loops from inside (loop_start SKIP_CURRENT, packet_start/packet_end "
+        "SKIP_SIBLINGS, item SKIP_SIBLINGS in a non-last packet, all packets of a loop bypassed); oracle (implementation "
+        "only): C15 restated over log + final CIF, strict on loop_end / packet_end / later packets / stored packets")
 
 CONT, SKIP_CUR, SKIP_SIB, END = 0, -1, -2, -3
 RESPS = [-1, -2, -3, 7, 1]
@@ -277,6 +279,80 @@ def handler_count(doc):
                 n += 2 + els(e[2])
         return n
     return 2 + sum(2 + els(b[2]) for b in doc)
+
+
+def handler_labels(doc):
+    """the handler callbacks of an all-continue parse, in order, as labels (kind, loop number, packet, item)"""
+    out = ["cs"]
+    nloop = [0]
+
+    def els(es):
+        for e in es:
+            if e[0] == "i":
+                out.append(("it",))
+            elif e[0] == "l":
+                L = nloop[0]
+                nloop[0] += 1
+                out.append(("ls", L))
+                for i, p in enumerate(e[2]):
+                    out.append(("ps", L, i))
+                    for j in range(len(e[1])):
+                        out.append(("li", L, i, j))
+                    out.append(("pe", L, i))
+                out.append(("le", L))
+            else:
+                out.append(("fs",))
+                els(e[2])
+                out.append(("fe",))
+    for b in doc:
+        out.append(("bs",))
+        els(b[2])
+        out.append(("be",))
+    out.append("ce")
+    return out
+
+
+def loop_bypass_programs(doc):
+    """programs that bypass a loop from inside it while its container is not skipped"""
+    lab = handler_labels(doc)
+    idx = {l: k for k, l in enumerate(lab)}
+    loops = sorted({l[1] for l in lab if isinstance(l, tuple) and l[0] == "ls"})
+    progs = []
+    for L in loops:
+        npk = len([l for l in lab if isinstance(l, tuple) and l[0] == "ps" and l[1] == L])
+        nit = len([l for l in lab if isinstance(l, tuple) and l[0] == "li" and l[1] == L and l[2] == 0])
+        progs += [{idx[("ls", L)]: SKIP_CUR}, {idx[("ls", L)]: SKIP_SIB}]
+        for i in range(npk):
+            progs += [{idx[("ps", L, i)]: SKIP_SIB}, {idx[("pe", L, i)]: SKIP_SIB}, {idx[("ps", L, i)]: SKIP_CUR},
+                      {idx[("pe", L, i)]: SKIP_CUR}]
+            for j in range(nit):
+                progs += [{idx[("li", L, i, j)]: SKIP_SIB}, {idx[("li", L, i, j)]: SKIP_CUR}]
+        # all packets bypassed, in three ways (the loop must not be left behind packet-less)
+        progs.append({idx[("ps", L, i)]: SKIP_CUR for i in range(npk)})
+        progs.append({idx[("pe", L, i)]: SKIP_CUR for i in range(npk)})
+        progs.append({idx[("li", L, i, 0)]: SKIP_SIB for i in range(npk)})
+        if npk >= 2:
+            # first packet kept, the rest bypassed / first packets bypassed one by one, the last kept
+            progs.append({idx[("ps", L, 1)]: SKIP_SIB})
+            progs.append({idx[("ps", L, i)]: SKIP_CUR for i in range(npk - 1)})
+            progs.append({idx[("li", L, 0, nit - 1)]: SKIP_SIB, idx[("pe", L, 1)]: SKIP_SIB})
+            progs.append({idx[("ps", L, 0)]: SKIP_SIB, idx[("le", L)]: END})          # le is never reached
+        # the same followed by END / an error a little later
+        progs.append({idx[("ps", L, 0)]: SKIP_SIB, idx[("ps", L, 0)] + 1: END})
+        progs.append({idx[("ls", L)]: SKIP_CUR, idx[("ls", L)] + 1: 7})
+    return progs
+
+
+def U(x):
+    return ("C", 0, x, "unq")
+
+
+TARGET = [("b", "t1", [("i", "_s0", U("a")),
+                       ("l", ["_a", "_b"], [[U("1"), U("2")], [U("3"), ("N",)], [("U",), U("6")]]),
+                       ("i", "_s1", ("C", 1, "x y", "sq")),
+                       ("f", "fr", [("l", ["_c"], [[U("7")], [U("8")]]), ("i", "_s2", U("b"))]),
+                       ("l", ["_d", "_e", "_f"], [[U("p"), ("L", [U("q")]), U("r")], [U("s"), U("t"), ("T", [("k", "sq", U("u"))])]])]),
+          ("b", "t2", [("l", ["_g"], [[U("9")]]), ("i", "_z", U("c"))])]
 
 
 # ------------------------------------------------------------------------------------------------ reading requests back
@@ -586,7 +662,7 @@ class Sim:
             self.syntax(("dn", e[1]))
             cs["items"][e[1]] = (e[2], MAY)            # in progress
             r = self.handler(("it", (e[1], e[2])))
-            cs["items"][e[1]] = (e[2], MUST if r == CONT else MAY)
+            cs["items"][e[1]] = (e[2], MUST if r == CONT else NOT)     # STRICT: SKIP_* = not stored
             return "sib" if r == SKIP_SIB else "go"
         if e[0] == "f":
             fs = cs["frames"][e[1]]
@@ -604,50 +680,51 @@ class Sim:
         r = self.handler(("ls", tuple(e[1])))
         sib = (r == SKIP_SIB)
         pbyp = (r != CONT)
-        optional = pbyp
+        # STRICT (documented behaviour, notes/agents/gH.md): a loop bypassed from loop_start or from inside (packet_start /
+        # packet_end answering SKIP_SIBLINGS) gets no loop_end; a packet bypassed from packet_start or from an item
+        # answering SKIP_SIBLINGS gets no packet_end and is not stored; later packets of a loop are bypassed only by
+        # SKIP_SIBLINGS of packet_start / packet_end (an item's siblings are the other items of its packet)
+        no_le = pbyp
         for i, p in enumerate(e[2]):
             if pbyp:
                 continue
-            ls["pk"][i] = (p, MAY)
+            ls["pk"][i] = (p, MAY)                      # in progress
             r1 = self.handler(("ps", "0"))
             ibyp = (r1 != CONT)
-            popt = ibyp
-            cls = MUST
-            if ibyp:
-                cls = MAY
+            no_pe = ibyp
+            cls = NOT if ibyp else MUST
             if r1 == SKIP_SIB:
                 pbyp = True
-                optional = True
+                no_le = True
             for n, v in zip(e[1], p):
                 if ibyp:
                     continue
                 r2 = self.handler(("it", (n, v)))
-                if r2 == SKIP_CUR:
-                    cls = MAY
-                elif r2 == SKIP_SIB:
+                if r2 == SKIP_SIB:                        # SKIP_CURRENT: the item stays in its packet
                     ibyp = True
-                    popt = True
-                    # the rest of the packet is bypassed, so the packet cannot be stored unless this was its last item
-                    cls = MAY if n == e[1][-1] else NOT
-            r3 = self.opt_end(("pe", tuple(zip(e[1], p))), popt)
-            if r3 is None and cls == MUST:
-                cls = MAY
-            if r3 in (SKIP_CUR, SKIP_SIB):
-                cls = MAY if cls != NOT else NOT
-            if r3 == SKIP_SIB:
-                pbyp = True
-                optional = True
+                    no_pe = True
+                    cls = NOT
+            pe = ("pe", tuple(zip(e[1], p)))
+            if no_pe:
+                if self.peek() == pe:
+                    raise Bad("event %d: packet_end delivered for a packet that was bypassed" % self.k)
+            else:
+                r3 = self.handler(pe)
+                if r3 != CONT:
+                    cls = NOT
+                if r3 == SKIP_SIB:
+                    pbyp = True
+                    no_le = True
             ls["pk"][i] = (p, cls)
         # loop end: handle = names sorted by code unit in storing mode, NULL otherwise
-        if self.peek() is not None and self.peek()[0] == "le":
-            exp = ("le", tuple(sorted(e[1])) if self.storing else None)
-            if self.peek() != exp:
-                raise Bad("event %d: expected %r, log has %r" % (self.k, exp, self.peek()))
-            r4 = self.answer()
+        exp = ("le", tuple(sorted(e[1])) if self.storing else None)
+        if no_le:
+            if self.peek() is not None and self.peek()[0] == "le":
+                raise Bad("event %d: loop_end delivered for a loop that was bypassed from loop_start or from inside" % self.k)
+        else:
+            r4 = self.handler(exp)
             if r4 == SKIP_SIB:
                 sib = True
-        elif not optional:
-            raise Bad("event %d: expected loop_end, log has %r" % (self.k, self.peek()))
         ls["open"] = False
         return "sib" if sib else "go"
 
@@ -917,6 +994,19 @@ def generate(seed, tier):
         for k in range(n):
             for resp in RESPS:
                 yield request(doc, r, layout, {k: resp})
+    # 1b. loops bypassed from inside while their container is not skipped (loop_start SKIP_CURRENT; packet_start /
+    #     packet_end SKIP_SIBLINGS; item SKIP_SIBLINGS in a packet that is not the last; all packets of a loop bypassed)
+    tdocs = [(TARGET, "min"), (TARGET, "rand")]
+    for i in range(2 if quick else 12):
+        d = rand_doc(r, big)
+        tries = 0
+        while not any(e[0] == "l" and len(e[2]) >= 2 for b in d for e in b[2]) and tries < 50:
+            d = rand_doc(r, big)
+            tries += 1
+        tdocs.append((d, "rand"))
+    for doc, layout in tdocs:
+        for prog in loop_bypass_programs(doc):
+            yield request(doc, r, layout, prog)
     # 2. all pairs on small documents
     for i in range(1 if quick else 8):
         doc = rand_doc(r, small)
